@@ -13,7 +13,7 @@ META = {
                    'sequence, equal to it on success paths (R03.1-R03.4, R03.6). Identifier provenance (R03.5): user id, '
                    'channel ids and share id used in outgoing PDUs derive from the server replies, and the share id is '
                    '(re)stored on every accepted demand-active. Reader layouts of the server PDUs parsed during the sequence '
-                   'are compared with the MS-RDPBCGR layouts in spec/server_pdus.json (R03.8: a capability set the client cannot parse never aborts the demand-active; R03.7: field order, kinds, optional '
+                   'are compared with the MS-RDPBCGR layouts in spec/server_pdus.json (R03.8: a capability set the client cannot parse never aborts the demand-active; R03.9: the licence reply is recognised by the SEC_LICENSE_PKT bit alone (decided for all 65536 flag words); R03.7: field order, kinds, optional '
                    'trailing fields). "Connecting succeeds against every conforming server" as a value-level statement is not decided.',
     'assumptions': ['HashMap iteration order of the two static channels is unspecified (both joins are sent; their relative order is not decided)'],
     'trusted_base': ['rustc nightly MIR construction', 'mirfacts exporter', 'rules/c03.py, dsl.py, sym.py, facts.py', 'spec/server_pdus.json'],
@@ -191,6 +191,49 @@ def run(ctx):
                   'every accepted demand-active stores Some(shareId field of that PDU) into self.share_id', da.where(),
                   'read_demand_active_pdu accepts a demand-active without (re)storing its shareId: after a reactivation the old share id would be sent')
     ctx.floor('R03.5', 'accepting paths of read_demand_active_pdu', n_true, 1)
+    # ---- R03.9 the licensing exchange is entered for every security header that carries SEC_LICENSE_PKT (other flags may accompany it) ----
+    from c13 import subst_expr
+    sc = ctx.body('core::sec::connect')
+    n_lic = 0
+    accept = set()
+    for path, st in feasible_paths(sc, P, limit=200000):
+        if not path_calls(st, ['core::license::client_connect']):
+            continue
+        leaf = None
+        brs = []
+        for ev in st.events:
+            if ev[0] == 'call' and ev[1].callee == 'core::license::client_connect':
+                break
+            if ev[0] == 'branch':
+                e = resolve(st, ev[2])
+                cand = [n for n in walk(e) if n[0] == 'field' and n[2] == '0' and any(x[0] == 'variant' and x[2] == 'U16' for x in walk(n))
+                        and '"securityFlag"' in str(n)]
+                if cand and strip(ev[2])[0] == 'bin':
+                    leaf = max(cand, key=lambda n: len(str(n))) if leaf is None else leaf
+                    brs.append(ev)
+        if leaf is None:
+            continue
+        n_lic += 1
+        for v in range(0, 65536):
+            ok = True
+            for ev in brs:
+                e = fold(subst_expr(resolve(st, ev[2]), leaf, ('const', v, str(v))))
+                if e[0] == 'const' and e[1] is not None:
+                    if bool(e[1]) != branch_truth(ev):
+                        ok = False
+                        break
+                else:
+                    ok = None
+                    break
+            if ok:
+                accept.add(v)
+    want = {v for v in range(65536) if v & 0x0080}
+    ctx.check(n_lic >= 1 and accept == want, 'R03.9', 'licence:flag_test',
+              'the licensing reply is accepted exactly when SEC_LICENSE_PKT (0x0080) is set in securityFlag, whatever other flags accompany it', sc.where(),
+              'sec::connect enters the licensing exchange for %d of the 32768 flag words that carry SEC_LICENSE_PKT and for %d that do not (e.g. 0x%04x): a conforming '
+              'licence reply with additional flags (0x0280 = LICENSE_PKT | LICENSE_ENCRYPT_SC) must not be rejected'
+              % (len(accept & want), len(accept - want), min(want - accept) if want - accept else 0))
+    ctx.floor('R03.9', 'paths of sec::connect reaching the licensing exchange', n_lic, 1)
     # ---- R03.8 a capability set the client cannot parse does not abort the activation (MS-RDPBCGR 1.3.1.1: unknown sets are ignored) ---
     n_tol = 0
     for path, st in feasible_paths(da, P, limit=200000):
